@@ -9,6 +9,7 @@ package main
 import (
 	"context"
 	"fmt"
+	"io"
 	"reflect"
 	"sort"
 	"strings"
@@ -127,9 +128,13 @@ type session struct {
 	Name     string
 	Stream   bool
 	Fragment bool
-	V1       bool
-	Groups   [][]call
-	MaxDelay int
+	// StallReader: the engine is busy once - the client's read of the server's output stalls (a virtual sleep, which
+	// ends only when nothing else can move) right after the hello, so that everything the server wants to say meanwhile
+	// has to queue up behind one blocked write
+	StallReader bool
+	V1          bool
+	Groups      [][]call
+	MaxDelay    int
 }
 
 var (
@@ -148,6 +153,10 @@ var (
 	cGreetS = call{RunID: "g", Step: "greet", Input: map[string]any{"name": "Sig", "count": int64(1)}, Signal: true}
 )
 
+func badIn(run string) call {
+	return call{RunID: run, Step: "greet", Input: map[string]any{"name": "this name is far too long"}}
+}
+
 func sessions(tier string) []session {
 	s := []session{
 		{Name: "1-greet", Groups: [][]call{{cGreetA}}, MaxDelay: 2},
@@ -158,6 +167,8 @@ func sessions(tier string) []session {
 		{Name: "2-concurrent-one-rejected", Groups: [][]call{{cBadIn, cSum}}, MaxDelay: 1},
 		{Name: "2-concurrent-same-step", Groups: [][]call{{cGreetA, cGreetB}}, MaxDelay: 1},
 		{Name: "1-greet-signal", Groups: [][]call{{cGreetS}}, MaxDelay: 1},
+		{Name: "6-rejected-1-good-concurrent-reader-stalls", StallReader: true, MaxDelay: -1,
+			Groups: [][]call{{badIn("e1"), badIn("e2"), badIn("e3"), badIn("e4"), badIn("e5"), badIn("e6"), cGreetA}}},
 		{Name: "1-echo-rich-payload", Groups: [][]call{{cEcho}}, MaxDelay: 0},
 		{Name: "v1-echo-rich-payload", V1: true, Groups: [][]call{{cEcho}}, MaxDelay: 0},
 		{Name: "2-concurrent-stream-fragmented", Stream: true, Fragment: true, Groups: [][]call{{cGreetA, cSumErr}}, MaxDelay: 0},
@@ -212,7 +223,7 @@ func normalise(v any) any {
 
 func computeExpected() {
 	p := newPlugin()
-	for _, c := range []call{cGreetA, cGreetB, cSum, cSumErr, cBadIn, cBadStep, cGreetS, cEcho} {
+	for _, c := range []call{cGreetA, cGreetB, cSum, cSumErr, cBadIn, cBadStep, cGreetS, cEcho, badIn("e1"), badIn("e2"), badIn("e3"), badIn("e4"), badIn("e5"), badIn("e6")} {
 		id, data, err := p.CallStep(context.Background(), "expect-"+c.RunID, c.Step, normalise(c.Input))
 		if err != nil {
 			want[c.RunID] = expected{Err: true}
@@ -262,6 +273,21 @@ func v1Peer(in *mcrt.Link, out *mcrt.Link, plugin *schema.CallableSchema, n int)
 	_ = out.Writer().Close()
 }
 
+// stallingReader delays its stallAt-th Read by a virtual second (see session.StallReader).
+type stallingReader struct {
+	r       io.Reader
+	n       int
+	stallAt int
+}
+
+func (s *stallingReader) Read(p []byte) (int, error) {
+	s.n++
+	if s.n == s.stallAt {
+		mcrt.Sleep(time.Second)
+	}
+	return s.r.Read(p)
+}
+
 func body(se *session) func() {
 	return func() {
 		o := &obs{results: map[string][]atp.ExecutionResult{}}
@@ -287,7 +313,11 @@ func body(se *session) func() {
 				_ = s2c.Writer().Close()
 			})
 		}
-		cli := atp.NewClient(mcrt.Duplex{Reader: s2c.Reader(), Writer: c2s.Writer()})
+		var clientIn io.Reader = s2c.Reader()
+		if se.StallReader {
+			clientIn = &stallingReader{r: s2c.Reader(), stallAt: 2}
+		}
+		cli := atp.NewClient(mcrt.Duplex{Reader: clientIn, Writer: c2s.Writer()})
 		if _, err := cli.ReadSchema(); err != nil {
 			o.schemaErr = err
 			return
@@ -354,7 +384,11 @@ func judge(se *session, r *mcrt.Result) (string, []mc.Finding) {
 			add(n, "two threads were inside Write on the same stream at once")
 		}
 	}
-	if r.TimerFires > 0 {
+	allowed := 0
+	if se.StallReader {
+		allowed = 1 // the stall itself is a (virtual) timer of the harness
+	}
+	if r.TimerFires > allowed {
 		add("timer needed on a healthy connection", "")
 	}
 	outcome := r.Status.String()
